@@ -8,6 +8,11 @@
 (*   coin tossing:  commit "RNG comm"      reveal "RNG ver"                 *)
 (*   aShare:        commit "fashare comm"  reveal "fashare ver", "fashare di_bi" *)
 (*   leaky AND:     commit "flaand comm"   reveal "flaand hash"             *)
+(* Challenge-after-data, as far as it is an ORDER of messages: when an OT    *)
+(* sender posts the k-th seed of the KOS check coefficients ("KOS_OT_seed")  *)
+(* to a peer it must have completed the receive of the k-th OT-extension     *)
+(* matrix ("ALSZ_OT_setup") from THAT peer -- the matrix is what the         *)
+(* coefficients test.                                                        *)
 (***************************************************************************)
 EXTENDS TraceBase, FiniteSets
 
@@ -19,6 +24,9 @@ CommitOf(ph) == CASE ph = "RNG ver" -> "RNG comm"
                   [] ph \in {"fashare ver", "fashare di_bi"} -> "fashare comm"
                   [] ph = "flaand hash" -> "flaand comm"
 Commit == {"RNG comm", "fashare comm", "flaand comm"}
+Challenge == {"KOS_OT_seed"}
+DataOf(ph) == CASE ph = "KOS_OT_seed" -> "ALSZ_OT_setup"
+Data == {"ALSZ_OT_setup"}
 
 Init == l = 1 /\ n = 0 /\ run = "none" /\ got = << >> /\ sent = << >> /\ viol = << >> /\ nchk = 0
 
@@ -26,8 +34,14 @@ r == Rec[l]
 Ps == 0 .. (n - 1)
 
 IsRevealPost == r.ev = "s" /\ r.d = "S" /\ r.ph \in Reveal
+IsChallengePost == r.ev = "s" /\ r.d = "S" /\ r.ph \in Challenge
 Bad ==
-  IF IsRevealPost THEN
+  IF IsChallengePost THEN
+    LET k == sent[<< r.p, r.ph, r.q >>] + 1 IN
+    IF got[<< r.p, DataOf(r.ph), r.q >>] < k
+    THEN r.ph \o " number " \o ToString(k) \o " sent before the data it tests (" \o DataOf(r.ph) \o ") was received from that peer"
+    ELSE ""
+  ELSE IF IsRevealPost THEN
     LET k == sent[<< r.p, r.ph, r.q >>] + 1 IN
     IF \E o \in Ps \ {r.p} : got[<< r.p, CommitOf(r.ph), o >>] < k
     THEN r.ph \o " number " \o ToString(k) \o " revealed before all commitments of the round were received"
@@ -38,14 +52,14 @@ Next ==
   /\ l <= NRec /\ l' = l + 1
   /\ n' = IF r.ev = "cfg" THEN r.n ELSE n
   /\ run' = IF r.ev = "cfg" THEN r.run ELSE run
-  /\ got' = IF r.ev = "cfg" THEN [x \in (0..(r.n - 1)) \X Commit \X (0..(r.n - 1)) |-> 0]
-            ELSE IF r.ev = "e" /\ r.ok /\ r.d = "R" /\ r.ph \in Commit
+  /\ got' = IF r.ev = "cfg" THEN [x \in (0..(r.n - 1)) \X (Commit \cup Data) \X (0..(r.n - 1)) |-> 0]
+            ELSE IF r.ev = "e" /\ r.ok /\ r.d = "R" /\ r.ph \in (Commit \cup Data)
                  THEN [got EXCEPT ![<< r.p, r.ph, r.q >>] = @ + 1]
             ELSE got
-  /\ sent' = IF r.ev = "cfg" THEN [x \in (0..(r.n - 1)) \X Reveal \X (0..(r.n - 1)) |-> 0]
-             ELSE IF IsRevealPost THEN [sent EXCEPT ![<< r.p, r.ph, r.q >>] = @ + 1]
+  /\ sent' = IF r.ev = "cfg" THEN [x \in (0..(r.n - 1)) \X (Reveal \cup Challenge) \X (0..(r.n - 1)) |-> 0]
+             ELSE IF IsRevealPost \/ IsChallengePost THEN [sent EXCEPT ![<< r.p, r.ph, r.q >>] = @ + 1]
              ELSE sent
-  /\ nchk' = IF r.ev # "cfg" /\ IsRevealPost THEN nchk + 1 ELSE nchk
+  /\ nchk' = IF r.ev # "cfg" /\ (IsRevealPost \/ IsChallengePost) THEN nchk + 1 ELSE nchk
   /\ viol' = IF r.ev # "cfg" /\ Bad # "" /\ Len(viol) < 5
              THEN Append(viol, [line |-> l, run |-> run, what |-> Bad, p |-> r.p])
              ELSE viol
